@@ -20,6 +20,7 @@ Definition w6 : list stmt :=
 Definition w7 : list stmt := [CreateTable 0 [ci 0; ci 1]; Insert 0 [VI 1; VI 2]; RenameCol 0 0 1].
 Definition w8 : list stmt := [CreateTable 0 [ci 0]; CreateIndex 1 0 5].
 Definition w9 : list stmt := [CreateTable 0 [ci 0]; Insert 0 [VI 1]; DropCol 0 0 true].
+Definition w12 : list stmt := [CreateTable 0 [ci 0; ci 1]; CreateIndex 0 0 1; DropCol 0 1 true; CreateIndex 0 0 0].
 
 Ltac refute := split; [vm_compute; reflexivity | let Hne := fresh "Hne" in intro Hne; vm_compute in Hne; discriminate Hne].
 
@@ -40,6 +41,9 @@ Proof. refute. Qed.
 Lemma index_missing_column_refuted_l : hist_class i_empty w8 = 8 /\ i_run i_empty w8 <> s_run s_empty w8.
 Proof. refute. Qed.
 Lemma drop_only_column_refuted_l : hist_class i_empty w9 = 9 /\ i_run i_empty w9 <> s_run s_empty w9.
+Proof. refute. Qed.
+
+Lemma drop_column_index_file_refuted_l : hist_class i_empty w12 = 12 /\ i_run i_empty w12 <> s_run s_empty w12.
 Proof. refute. Qed.
 
 (* non-vacuity of the main theorem: a history with rows that goes through ADD (with and without
